@@ -58,8 +58,14 @@ def _ops():
     stranger = st.builds(lambda n, l: ["rx", l.format(n)], st.one_of(st.sampled_from((1, 2, 250, 252, 253, 254, 255)), st.integers(0, 255)),
                          st.sampled_from(("{};1;0;0;6;child\n", "{};1;1;0;0;5\n", "{};255;3;0;0;50\n", "{};1;2;0;0;\n")))
     tick = st.sampled_from((1, 599, 601, 3600, 86400, 10**7)).map(lambda t: ["tick", t])
+    # ordinary traffic of registered nodes and of the gateway, application flags: none of it gives an id back
+    traffic = st.one_of(
+        st.builds(lambda n, l: ["rx", l.format(n)], st.sampled_from((1, 2, 3, 5, 253, 254)), st.sampled_from(("{};1;0;0;6;c\n", "{};1;1;0;0;5\n", "{};255;3;0;11;s\n", "{};255;3;0;22;7\n", "{};255;3;0;32;500\n"))),
+        st.sampled_from((["rx", "0;255;3;0;14;Gateway startup complete.\n"], ["rx", "0;255;3;0;9;log\n"], ["rx", "0;255;3;0;18;\n"], ["rx", "0;255;3;0;2;2.2.0\n"], ["rx", "0;255;3;0;2;1.5.1\n"])),
+        st.builds(lambda n: ["flag", n, "reboot", True], st.sampled_from((1, 2, 3, 5, 253, 254))),
+    )
     remove = st.one_of(st.integers(1, 254), st.sampled_from((1, 2, 3, 250, 253, 254))).map(lambda i: ["remove", i])  # the application decommissions a node
-    return st.lists(gen.weighted((6, request.map(lambda l: ["rx", l])), (2, present.map(lambda l: ["rx", l])), (1, install), (1, st.sampled_from((["save"], ["save"], ["reload"]))), (2, stranger), (1, tick), (1, remove)), min_size=3, max_size=20)
+    return st.lists(gen.weighted((6, request.map(lambda l: ["rx", l])), (2, present.map(lambda l: ["rx", l])), (1, install), (1, st.sampled_from((["save"], ["save"], ["reload"]))), (2, stranger), (1, tick), (1, remove), (3, traffic)), min_size=3, max_size=20)
 
 
 def strategy(tier: str):
@@ -107,6 +113,17 @@ def enumerate_cases(tier: str):
     for version in ("1.4", "2.2"):
         for ids_a, ids_b in (([*range(1, 254)], [1, 2]), ([*range(0, 254)], []), ([5], [*range(1, 250)]), ([*range(1, 253)], [*range(1, 253)])):
             yield {"kind": "two-gateways", "version": version, "ids_a": ids_a, "ids_b": ids_b}
+    # between two requests: one event of every kind (traffic of the new node, of others, of the gateway; flags; sessions) - ids stay taken
+    events = [["rx", "0;255;3;0;14;Gateway startup complete.\n"], ["rx", "0;255;3;0;9;log\n"], ["rx", "0;255;3;0;2;2.2.0\n"], ["rx", "0;255;3;0;2;1.5.1\n"], ["rx", "0;255;0;0;18;2.1.1\n"],
+              ["rx", "0;255;3;0;18;\n"], ["rx", "0;255;3;0;6;0\n"], ["session"], ["save"], ["reload"], ["tick", 90000], ["read_error", "failed"]]
+    for version in (None, "1.5", "2.0", "2.2"):
+        for event in events:
+            ops = [["rx", "255;255;3;0;3;\n"], event, ["rx", "255;255;3;0;3;\n"], event, ["rx", "255;255;3;0;3;\n"]]
+            yield {"version": version, "ids": [1, 2], "install": "direct", "ops": ops, "listen_mode": "persistent"}
+        # the new node presents itself, is flagged for reboot by the application, reports a value (the reboot command goes out): still registered
+        ops = [["rx", "255;255;3;0;3;\n"], ["rx", "3;255;0;0;17;2.0\n"], ["rx", "3;1;0;0;6;c\n"], ["flag", 3, "reboot", True], ["rx", "3;1;1;0;0;5\n"], ["rx", "255;255;3;0;3;\n"],
+               ["rx", "3;1;1;0;0;6\n"], ["rx", "255;255;3;0;3;\n"]]
+        yield {"version": version, "ids": [1, 2], "install": "direct", "ops": ops, "listen_mode": "fresh"}
     # the answer's write stalls after the bytes went out and the listener is cancelled by the application's timeout
     for version in (None, "1.4", "2.2"):
         for hangs in ([0], [1], [0, 1]):
